@@ -9,6 +9,7 @@ from ..astutil import ancestors, block_of, calls_in, dotted, guard_atoms, lexica
 from ..cfg import no_exc
 from ..report import Registry, chain, sub
 from ._helpers_rules_d import call_nodes, callee_is, guard_atom_set, kw, qualname
+from ._helpers_rob_B2 import bool_binds, expand, helper_key_stores, key_store_helpers, resolved_atom_set
 
 R = Registry(
     "C34",
@@ -503,9 +504,14 @@ def r6(ctx):
         if not m.relpath.startswith("orm/") or m.relpath in NOT_STATE_KEYS or ".key" not in m.source:
             continue
         pm = None
+        # private helpers that re-key a state handed to them: a call of such a helper is a key store in the caller
+        helpers = key_store_helpers(ctx, m, lambda c, v, f_: _imap_op(c, KEY_DISCARDS, v, _imap_aliases(f_)) or _helper_op(c, disc_tbl, v),
+                                    lambda c, v, f_: _imap_op(c, KEY_REGISTERS, v, _imap_aliases(f_)) or _helper_op(c, reg_tbl, v),
+                                    lambda g_, f_, n_: guard_atom_set(g_, n_))
         for fn in _functions(m.tree):
             writes = _key_writes(fn)
-            if not writes:
+            via_helper = helper_key_stores(fn, helpers)
+            if not writes and not via_helper:
                 continue
             if pm is None:
                 pm = m.parents()
@@ -516,13 +522,63 @@ def r6(ctx):
             imaps = _imap_aliases(fn)
             params = [a.arg for a in fn.args.posonlyargs + fn.args.args + fn.args.kwonlyargs]
             problems, wit, notes = [], None, []
-            for var, sts in sorted(writes.items()):
+            own = helpers.get(fn.name)
+            own = own if own is not None and own.fn is fn and own.followed else None
+            for var in sorted(set(writes) | set(via_helper)):
+                sts = list(writes.get(var, []))
                 disc = call_nodes(g, lambda c: _imap_op(c, KEY_DISCARDS, var, imaps) or _helper_op(c, disc_tbl, var))
                 reg = call_nodes(g, lambda c: _imap_op(c, KEY_REGISTERS, var, imaps) or _helper_op(c, reg_tbl, var))
+                # ---- calls of a helper that stores the key of `var`: discard < call < register, unless the helper does it itself
+                for _, h, c in via_helper.get(var, []):
+                    for N in call_nodes(g, lambda x: x is c):
+                        st = g.node(N).stmt
+                        txt = f"{h.fn.name}({var}, ...) [which assigns {h.param}.key]"
+                        starts, heads = _pass_bounds(g, pm, fn, st)
+                        atoms = guard_atom_set(g, N)
+                        if (f"{var}.key is None", True) in atoms or (f"{var}.key", False) in atoms:
+                            notes.append(f"`{txt}`: first key of a state that is not registered yet")
+                            continue
+                        d_oth = [x for x in disc if x != N]
+                        r_oth = [x for x in reg if x != N]
+                        if not h.discards_first:
+                            w = g.witness(starts, [N], avoid=d_oth)
+                            if w is not None or not d_oth:
+                                problems.append(f"`{txt}` re-keys a state that may be registered in the identity map without discarding it first: "
+                                                f"the entry filed under the previous key is never removed (one object under two identity keys)")
+                                wit = wit or (g.describe_path(w) if w else None)
+                            w = g.witness(r_oth, [N], avoid=list(heads) + d_oth)
+                            if w is not None:
+                                problems.append(f"`{var}` is registered before `{txt}` without a discard in between: it stays filed under the previous key")
+                                wit = wit or g.describe_path(w)
+                        if not h.registers_after and (not r_oth or g.witness([N], r_oth, avoid=heads) is None):
+                            problems.append(f"after `{txt}` the state is not registered again under its new key")
+                        w = g.witness([N], d_oth, avoid=heads)
+                        if w is not None:
+                            problems.append(f"the identity map discards `{var}` after `{txt}`: the lookup uses the NEW key, so the entry under the key "
+                                            f"the state was registered with stays in the map")
+                            wit = wit or g.describe_path(w)
+                        notes.append(f"`{txt}`: " + ("helper discards first" if h.discards_first else "discarded before the call") + "; "
+                                     + ("helper registers again" if h.registers_after else "registered again after the call"))
+                delegated = own is not None and var == own.param  # what this helper leaves undone is checked at its call sites
                 for st, kind in sts:
                     starts, heads = _pass_bounds(g, pm, fn, st)
                     for N in g.nodes_for(st):
                         atoms = guard_atom_set(g, N)
+                        if kind == "store" and delegated and not ((f"{var}.key is None", True) in atoms or (f"{var}.key", False) in atoms):
+                            n_sites = len(own.sites)
+                            if own.discards_first:
+                                w = g.witness(reg, [N], avoid=list(heads) + list(disc))
+                                if w is not None:
+                                    problems.append(f"`{var}` is registered before `{unparse(st)}` without a discard in between: it stays filed under the previous key")
+                                    wit = wit or g.describe_path(w)
+                            w = g.witness([N], disc, avoid=heads)
+                            if w is not None:
+                                problems.append(f"the identity map discards `{var}` after `{unparse(st)}`: the lookup uses the NEW key, so the entry under the key "
+                                                f"the state was registered with stays in the map")
+                                wit = wit or g.describe_path(w)
+                            notes.append(f"`{unparse(st)}` in a helper: " + ("discard precedes the store here" if own.discards_first else f"the discard is checked at the {n_sites} call site(s)")
+                                         + "; " + ("re-registered here" if own.registers_after else f"the re-registration is checked at the {n_sites} call site(s)"))
+                            continue
                         if kind == "store":
                             fresh = (f"{var}.key is None", True) in atoms or (f"{var}.key", False) in atoms or _constructed_here(pm, st, var)
                             if fresh:
